@@ -104,7 +104,7 @@ def settle(oc, ereqs, epend, sreqs, spend, wreqs, what_engine="Model/Engine.gene
                 oc.violations.append(dict(what="output file %s differs from the reference expansion of the template" % f["name"],
                                           expected=f["text"], got=real, **info))
                 break
-    tot = dict(user_items=0, user_items_ok=0, blocks=0, blocks_ok=0, chunks=0, chunks_ok=0, pgt_lines=0, pgt_lines_ok=0, pgt_lines_with_alternative=0, pst_blocks=0, pst_blocks_ok=0, struct_blocks=0, struct_blocks_ok=0, files=0, files_second_filtering_ok=0)
+    tot = dict(user_items=0, user_items_ok=0, blocks=0, blocks_ok=0, chunks=0, chunks_ok=0, pgt_lines=0, pgt_lines_ok=0, pgt_lines_with_alternative=0, pst_blocks=0, pst_blocks_ok=0, struct_blocks=0, struct_blocks_ok=0, files=0, files_second_filtering_ok=0, generator_inputs=0, generator_inputs_ok=0)
     for a in lean_batch(wreqs):
         if "error" in a:
             continue
